@@ -160,3 +160,111 @@ def tracedEqs (D : List Line) (k : Option String) : List Line :=
   D.filterMap fun t => if isEquation t && !t.isEmpty && decide (lineKey t = k) then some (stripCtx t) else none
 
 end Pysnark.QapEq
+
+/-!
+# The text of the equation file
+
+What is on disk is text: a line is its tokens joined by single blanks (`Line.render`, the way Python's
+`print(a, b, …)` writes them).  `QapText.parseLine` reads a line of `pysnark_eqs` back the way
+`qapsplit.py` does: `split(" ")`; the first token decides the kind of line; in a linear combination tokens
+alternate between a decimal integer and a wire name; a name is cut at its FIRST `/` into context and local
+part (`str.partition("/")`).  It is written from the grammar at the head of this file and shares nothing
+with the emitters.
+-/
+namespace Pysnark.QapText
+open Pysnark.QapEq
+
+/-- the text of a line -/
+def render (l : Line) : String := Line.render l
+
+/-- `str.split(" ")` -/
+def splitBlank : List Char → List (List Char)
+  | [] => [[]]
+  | c :: r =>
+    if c = ' ' then [] :: splitBlank r
+    else
+      match splitBlank r with
+      | w :: ws => (c :: w) :: ws
+      | [] => [[c]]
+
+/-- a non-empty string of decimal digits -/
+def readNat (w : List Char) : Option Nat :=
+  if w ≠ [] ∧ w.all Char.isDigit = true then some (Nat.ofDigitChars 10 w 0) else none
+
+/-- a decimal integer with an optional minus sign -/
+def readInt : List Char → Option Int
+  | '-' :: r => (readNat r).map fun n => -(n : Int)
+  | w => (readNat w).map Int.ofNat
+
+/-- `str.partition("/")`: `none` if there is no `/` -/
+def cutSlash : List Char → Option (List Char × List Char)
+  | [] => none
+  | c :: r => if c = '/' then some ([], r) else (cutSlash r).map fun ab => (c :: ab.1, ab.2)
+
+/-- a wire name `ctx/local`; a name without `/` is kept as a symbol; the empty token is the empty symbol -/
+def readName (w : List Char) : Tok :=
+  if w = [] then .sym ""
+  else
+    match cutSlash w with
+    | some (c, l) => .wire (String.ofList c) (String.ofList l)
+    | none => .sym (String.ofList w)
+
+/-- `c1 w1 c2 w2 …` with empty tokens allowed in front of a term -/
+def readLC : List (List Char) → Option (List Tok)
+  | [] => some []
+  | [] :: r => (readLC r).map (.sym "" :: ·)
+  | [_] => none
+  | c :: n :: r =>
+    match readInt c with
+    | some k => (readLC r).map fun t => .num k :: readName n :: t
+    | none => none
+
+/-- cut a token list at the first token equal to `k` -/
+def cutTok (k : List Char) : List (List Char) → Option (List (List Char) × List (List Char))
+  | [] => none
+  | w :: r => if w = k then some ([], r) else (cutTok k r).map fun ab => (w :: ab.1, ab.2)
+
+/-- drop a final token `.` -/
+def dropDotTok : List (List Char) → Option (List (List Char))
+  | [] => none
+  | [w] => if w = ['.'] then some [] else none
+  | w :: r => (dropDotTok r).map (w :: ·)
+
+def symOf (w : List Char) : Tok := .sym (String.ofList w)
+
+/-- `A * B = C .` -/
+def readMul (ws : List (List Char)) : Option Line :=
+  match cutTok ['*'] ws with
+  | none => none
+  | some (a, r1) =>
+    match cutTok ['='] r1 with
+    | none => none
+    | some (b, r2) =>
+      match dropDotTok r2 with
+      | none => none
+      | some c =>
+        match readLC a, readLC b, readLC c with
+        | some a, some b, some c => some (a ++ [.sym "*"] ++ b ++ [.sym "="] ++ c ++ [.sym "."])
+        | _, _, _ => none
+
+def readToks (ws : List (List Char)) : Option Line :=
+  match ws with
+  | [] => some []
+  | w :: r =>
+    if w = "[function]".toList then some (.sym "[function]" :: r.map symOf)
+    else if w = "[glue]".toList then some (.sym "[glue]" :: r.map symOf)
+    else if w = "[external]".toList then some (.sym "[external]" :: r.map symOf)
+    else if w = "[ioblock]".toList then
+      match r with
+      | c :: bn :: names => some (.sym "[ioblock]" :: symOf c :: symOf bn :: names.map readName)
+      | _ => none
+    else if w = ['*'] then
+      match r with
+      | e :: lc => if e = ['='] then (readLC lc).map fun t => .sym "*" :: .sym "=" :: t else readMul ws
+      | [] => none
+    else readMul ws
+
+/-- a line of the equation file, from its text -/
+def parseLine (s : String) : Option Line := readToks (splitBlank s.toList)
+
+end Pysnark.QapText
